@@ -36,7 +36,13 @@ void File::open(const char * filename, const std::ios_base::openmode mode) {
     /* read */
     if (mode & std::ios_base::in) {
         /* read file statistics */
-        fileStatistics.read(m_compressedFile);
+        try {
+            fileStatistics.read(m_compressedFile);
+        } catch (...) {
+            /* not a BLF file: do not stay half open (no worker threads exist, read() would wait forever) */
+            m_compressedFile.close();
+            throw;
+        }
 
         /* read restore points */
         // @todo read restore points
